@@ -28,6 +28,7 @@ theorem rConcatL_sound (ss : List Src) (pl : List String) (a a' : E2) (h : rConc
     · rename_i cl hcl
       split at h
       · rename_i hok
+        simp only [Bool.and_eq_true] at hok
         simp only [Option.some.injEq] at h
         subst h
         rw [asPar_eq hp, den2_app, den2_app]
@@ -38,7 +39,7 @@ theorem rConcatL_sound (ss : List Src) (pl : List String) (a a' : E2) (h : rConc
         rw [srcCols] at hcl
         rw [hcl] at this
         cases this
-        exact concat_push_left p.cols pl cl cb ra rb hok
+        exact concat_push_left p.cols pl cl cb ra rb hok.1
       · simp at h
     · simp at h
   · simp at h
@@ -52,6 +53,7 @@ theorem rConcatR_sound (ss : List Src) (pr : List String) (a a' : E2) (h : rConc
     · rename_i cr hcr
       split at h
       · rename_i hok
+        simp only [Bool.and_eq_true] at hok
         simp only [Option.some.injEq] at h
         subst h
         rw [asPar_eq hp, den2_app, den2_app]
@@ -62,7 +64,7 @@ theorem rConcatR_sound (ss : List Src) (pr : List String) (a a' : E2) (h : rConc
         rw [srcCols] at hcr
         rw [hcr] at this
         cases this
-        exact concat_push_right p.cols pr ca cr ra rb hok
+        exact concat_push_right p.cols pr ca cr ra rb hok.1
       · simp at h
     · simp at h
   · simp at h
@@ -104,6 +106,45 @@ theorem rConcatDrop_sound (ss : List Src) (a a' : E2) (h : rConcatDrop (srcCols 
     · simp at h
   · simp at h
 
+/-- `Projection._simplify_down` above a merge: the projection is dropped when it selects exactly the merge's columns -/
+theorem rMergeDrop_sound (ss : List Src) (a a' : E2) (h : rMergeDrop (srcCols ss) a = some a') :
+    Ref (den2 ss a) (den2 ss a') := by
+  unfold rMergeDrop at h
+  split at h
+  · rename_i cs how on l r
+    split at h
+    · rename_i hcond
+      simp only [Bool.and_eq_true, decide_eq_true_eq] at hcond
+      obtain ⟨hsch, hnd⟩ := hcond
+      simp only [Option.some.injEq] at h
+      subst h
+      intro v hv
+      simp only [den2] at hv ⊢
+      cases hl : den2 ss l with
+      | none => simp [hl] at hv
+      | some x =>
+        cases hr : den2 ss r with
+        | none => simp [hl, hr] at hv
+        | some y =>
+          simp only [hl, hr, Option.bind_some] at hv ⊢
+          cases hc : mergeV how on x y with
+          | none => simp [hc] at hv
+          | some w =>
+            cases w with
+            | frame c rows =>
+              obtain ⟨cl, rl, cr, rr, hx, hy, _, hcu⟩ := mergeV_frame hc
+              subst hx; subst hy
+              have hs : schema2 (srcCols ss) (.merge how on l r) = some c :=
+                schema2_sound ss (.merge how on l r) c rows (by simp [den2, hl, hr, hc])
+              rw [hsch] at hs
+              cases hs
+              rw [← hc, ← hv, hcu]
+              exact (merge_drop how on cl cr rl rr (hcu ▸ hnd)).symm
+            | series _ => have := mergeV_frameOrNone how on x y; rw [hc] at this; exact absurd this (by simp [FrameOrNone])
+            | scalar _ => have := mergeV_frameOrNone how on x y; rw [hc] at this; exact absurd this (by simp [FrameOrNone])
+    · simp at h
+  · simp at h
+
 /-- `Merge._simplify_up` (projection pushdown keeping the join keys), left side -/
 theorem rMergeL_sound (ss : List Src) (pl : List String) (a a' : E2) (h : rMergeL (srcCols ss) pl a = some a') :
     den2 ss a' = den2 ss a := by
@@ -114,6 +155,7 @@ theorem rMergeL_sound (ss : List Src) (pl : List String) (a a' : E2) (h : rMerge
     · rename_i cl cr hcl hcr
       split at h
       · rename_i hok
+        simp only [Bool.and_eq_true] at hok
         simp only [Option.some.injEq] at h
         subst h
         rw [asPar_eq hp, den2_app, den2_app]
@@ -126,7 +168,7 @@ theorem rMergeL_sound (ss : List Src) (pl : List String) (a a' : E2) (h : rMerge
         rw [srcCols] at hcl hcr
         rw [hcl] at h1; rw [hcr] at h2
         cases h1; cases h2
-        exact merge_push_left how on p.cols pl cl cr ra rb hok
+        exact merge_push_left how on p.cols pl cl cr ra rb hok.1
       · simp at h
     · simp at h
   · simp at h
@@ -141,6 +183,7 @@ theorem rMergeR_sound (ss : List Src) (pr : List String) (a a' : E2) (h : rMerge
     · rename_i cl cr hcl hcr
       split at h
       · rename_i hok
+        simp only [Bool.and_eq_true] at hok
         simp only [Option.some.injEq] at h
         subst h
         rw [asPar_eq hp, den2_app, den2_app]
@@ -153,7 +196,7 @@ theorem rMergeR_sound (ss : List Src) (pr : List String) (a a' : E2) (h : rMerge
         rw [srcCols] at hcl hcr
         rw [hcl] at h1; rw [hcr] at h2
         cases h1; cases h2
-        exact merge_push_right how on p.cols pr cl cr ra rb hok
+        exact merge_push_right how on p.cols pr cl cr ra rb hok.1
       · simp at h
     · simp at h
   · simp at h
@@ -268,13 +311,14 @@ theorem lenCands_sound (ss : List Src) (a a' : E2) (h : a' ∈ lenCands (srcLens
 
 theorem cands_sound (ss : List Src) (a b a' : E2) (h : a' ∈ cands (srcCols ss) (srcLens ss) a b) : Ref (den2 ss a) (den2 ss a') := by
   unfold cands at h
-  simp only [List.mem_append, List.mem_filterMap, Option.mem_toList] at h
-  rcases h with ((((⟨p, _, hp⟩ | ⟨p, _, hp⟩) | ⟨p, _, hp⟩) | ⟨p, _, hp⟩) | hp) | hp
+  simp only [List.mem_append, List.mem_filterMap, Option.mem_toList, List.mem_filter] at h
+  rcases h with (((((⟨p, _, hp⟩ | ⟨p, _, hp⟩) | ⟨p, _, hp⟩) | ⟨p, _, hp⟩) | hp) | hp) | ⟨hp, _⟩
   · exact Ref.of_eq (rConcatL_sound ss p a a' hp).symm
   · exact Ref.of_eq (rConcatR_sound ss p a a' hp).symm
   · exact Ref.of_eq (rMergeL_sound ss p a a' hp).symm
   · exact Ref.of_eq (rMergeR_sound ss p a a' hp).symm
   · exact rConcatDrop_sound ss a a' hp
+  · exact rMergeDrop_sound ss a a' hp
   · exact lenCands_sound ss a a' hp
 
 theorem congr_sound (ss : List Src) (chk : E2 → E2 → Bool) (hchk : ∀ x y, chk x y = true → Ref (den2 ss x) (den2 ss y))
